@@ -20,10 +20,11 @@ CONFIGS = [
     ("eq_byz0", [1, 1, 1, 1], 0, 2),
     ("eq_byz3", [1, 1, 1, 1], 3, 2),
     ("w_byz2", [2, 2, 1, 1], 2, 2),
+    ("eq_byz1", [1, 1, 1, 1], 1, 2),
 ]
 WEAK = ["PrevoteIgnoresLock", "UnlockOnOlderPolka", "PrecommitWithoutPolka", "PrecommitUnheldBlock",
         "QuorumOffByOne", "ConflictingVotesBothCounted", "PrevoteSkipsValidate", "CommitSkipsValidate",
-        "ProposalAnySigner"]
+        "ProposalAnySigner", "PolProposalOverridesLock", "RelockKeepsRound"]
 
 
 def main():
@@ -34,7 +35,10 @@ def main():
     binp = cc.build(ctx)
     budget = int(os.environ.get("SYNTH_TIMEOUT", "600"))
     try:
+        only = [c for c in os.environ.get("SYNTH_CONFIGS", "").split(",") if c]
         for tag, powers, bi, mr in CONFIGS:
+            if only and tag not in only:
+                continue
             info = cc.run_driver(ctx, binp, {"mode": "info", "powers": powers, "byz": [], "maxround": mr + 1}, "info" + tag)
             byz = [info["names"][bi]]
             for weak in weaks:
